@@ -560,4 +560,41 @@ example : (Range.mk 10 0 (-3) false).iter 10 = some [10, 7, 4, 1] ∧ (Range.mk 
 example : (Range.mk 0 9 3 true).iter 10 = some [0, 3, 6, 9] ∧ (Range.mk 0 9 3 true).len = 4 ∧ (Range.mk 0 9 3 false).len = 3 := by decide
 example : Range.make 0 10 (-3) false = .error .incoherent := by decide
 
+/-! ## non-vacuity: the hypotheses of the theorems above are met by concrete dates
+
+A small EOP database (eleven days of a UT1−UTC column, two leap-second entries) and 2015-03-04T12:00:00 UTC. -/
+
+def envEx : Env :=
+  { finals := fun day => if 57080 ≤ day ∧ day ≤ 57090 then some (-5300000 - (day - 57080) * 10367) else none
+    leap := [(41317, 100000000), (56109, 350000000)]
+    policy := .pass
+    tdb := fun _ => 12345 }
+
+def okOf (r : Except Err Date) : Option Date :=
+  match r with
+  | .ok x => some x
+  | .error _ => none
+
+def x0 : Date := ⟨57085, 432350000000, 350000000, ix "UTC", ⟨350000000, -5351835⟩⟩
+def yTT : Date := ⟨57085, 432350000000, -321840000, ix "TT", ⟨350000000, -5351835⟩⟩
+def yUT1 : Date := ⟨57085, 432349999995, 355351835, ix "UT1", ⟨350000000, -5351835⟩⟩
+def xPlus : Date := ⟨57086, 432350001230, 350000000, ix "UTC", ⟨350000000, -5362202⟩⟩
+
+/-- `x0` is what the constructor builds (so it is `WF` by `ofDatetime_spec`), `yTT`, `yUT1` its conversions, `xPlus` = `x0 + 1 day 123 µs` -/
+example : okOf (ofDatetime cfg envEx (ix "UTC") 4932187200000000) = some x0 ∧
+    okOf (changeScale cfg envEx x0 (ix "TT")) = some yTT ∧ okOf (changeScale cfg envEx x0 (ix "UT1")) = some yUT1 ∧
+    okOf (add cfg envEx x0 86400000123) = some xPlus := by decide
+
+/-- hypotheses of `changeScale_same_instant` / `changeScale_roundtrip` / `changeScale_eq_hash` hold for `x0 → TT`, and the conclusion is visible -/
+example : x0.scale ∈ uniformIx ∧ ix "TT" ∈ uniformIx ∧ x0.s % 10 = 0 ∧ x0.eop.taiUtc % 10 = 0 ∧ yTT.eop.taiUtc = x0.eop.taiUtc ∧
+    yTT.inst = x0.inst ∧ yTT.datetime = x0.datetime + 67184000 := by decide
+
+/-- `changeScale_instant_half` for `x0 → UT1`: clock reading a whole microsecond, offset not on a tie; the instant moved by 5 ticks of rounding -/
+example : clock x0 % 10 = 0 ∧ x0.off % 10 ≠ 5 ∧ yUT1.inst - x0.inst = -5 ∧ yUT1.off + (-5351835 - 0) - x0.off = 0 := by decide
+
+/-- `add_sub` for `x0 + t`: same offset, so `(x0 + t) - x0 = t` -/
+example : xPlus.off = x0.off ∧ subDate xPlus x0 = 86400000123 ∧ x0.scale ∉ constIx := by decide
+
+example : WF cfg envEx x0 := (ofDatetime_spec (cfg := cfg) (env := envEx) (sc := ix "UTC") (us := 4932187200000000) (x := x0) (by decide)).1
+
 end BeyondVerif.C03
